@@ -425,7 +425,7 @@ let replay (p : pinfo) (evs : ev array) : stats =
         st.stutters <- st.stutters + 1 end
       else begin
         (match top_of !s a, lab with
-         | Some FSBwait, (Core | Sched) -> raise (Unsupported "sync_background claims (steals) the queue: the model abstracts the waiter's steal path (L1)")
+         | Some FSBwait, (Core | Sched) -> raise (Unsupported "an unexpected section at the head of a sync waiter's loop (the waiter's claim is modelled and normally replayed; kept as a skip, not seen in the campaigns)")
          | _ -> ());
         div "actor %d performed a %s section with snapshot %s; the model's view is %s (%s; model frame %s)" a (show_lab lab) snap (model_view !s lab) why (show_top a)
       end
